@@ -3,9 +3,10 @@
    types, andb/orb are inlined; N, positive, nat stay inductive datatypes.  No Extract Constant. *)
 From Coq Require Extraction.
 From Coq Require Import ExtrOcamlBasic.
-From Akd Require Import Bits NodeLabel ElemSet.
+From Akd Require Import Bits NodeLabel ElemSet Marker.
 
 Extraction "../extract/model.ml"
   is_prefix_of get_prefix get_longest_common_prefix get_prefix_ordering nl_cmp
   empty_label_whatsapp empty_label_experimental nl_of_bits bits_of
-  eset_from eset_partition eset_lcp eset_contains_prefix.
+  eset_from eset_partition eset_lcp eset_contains_prefix
+  get_marker_versions K1_class.
